@@ -85,13 +85,14 @@ fn replay(rec: &Value) -> (String, Report) {
         "C05" => c04::replay_c05(&case),
         "C06" => c04::replay_c06(&case),
         "C07" => c04::replay_c07(&case),
-        "C04-session" | "C05-session" | "C06-session" => c04::replay_session(&case),
+        "C04-session" | "C05-session" | "C06-session" | "C15-session" => c04::replay_session(&case),
         "C08-seal" => c08::replay_seal(&case),
         "C09" => c09::replay(&case),
         "C10" => c10::replay(&case),
         "C11" | "C12" => c11::replay(&cmd, &case),
         "C13" | "C17" => c13::replay(&cmd, &case),
         "C14" => c14::replay_c14(&case),
+        "C14-multi" => c14::replay_c14_multi(&case),
         "C15" => c14::replay_c15(&case),
         "C16" => c14::replay_c16(rec, &case),
         "C18" => c18::replay(&case),
